@@ -42,10 +42,10 @@ func (c03) Mandatory(tier string) []string {
 	return []string{"shape:epoch", "shape:revision", "shape:hyphen-in-upstream", "shape:trailing-hyphen", "rt:UnmarshalText-does-not-retain-buffer", "shape:colon-in-upstream", "shape:whitespace-wrapped",
 		"invalid:epoch-non-numeric", "invalid:epoch-empty", "invalid:epoch-negative", "invalid:epoch-oversized", "invalid:embedded-space",
 		"invalid:nothing-after-colon", "invalid:first-char-non-digit", "invalid:bad-char-upstream", "invalid:bad-char-revision", "invalid:colon-in-revision",
-		"rt:String", "rt:MarshalControl", "rt:MarshalText", "rt:json", "rt-accepted-from-random", "rt-accepted-from-exhaustive", "volume:versions-parsed-in-one-process"}
+		"rt:String", "rt:MarshalControl", "rt:MarshalText", "rt:MarshalText-result-is-the-callers", "rt:json", "rt-accepted-from-random", "rt-accepted-from-exhaustive", "volume:versions-parsed-in-one-process"}
 }
 
-var wsWrap = []string{"", " ", "\t", "\n", " \t\n", "  ", "\r\n"}
+var wsWrap = []string{"", " ", "\t", "\n", " \t\n", "  ", "\r\n", "\v", "\f", " \f\v "} // the six white-space characters of C (what dpkg skips)
 
 func (p c03) RunBatch(t *core.T, b core.Batch) {
 	if concDispatch(p, t, b) {
@@ -332,6 +332,13 @@ func (c03) roundtrip(c *core.C, s, source string) {
 	} else if err := w2.UnmarshalText(mt); err != nil || w2 != v {
 		c.Failf("Parse(%q) = %+v: MarshalText gives %q, UnmarshalText of that gives %+v (err %v)", s, v, mt, w2, err)
 	} else {
+		// the marshalled text belongs to the caller: marshalling another value afterwards must not change it
+		snapshot := string(mt)
+		other := version.Version{Epoch: 7, Version: "99.zz+other", Revision: "77~other"}
+		if _, err := (&other).MarshalText(); err == nil && string(mt) != snapshot {
+			c.Failf("MarshalText of %+v returned %q; after another value was marshalled the same bytes read %q (the result aliases a buffer the library reuses)", v, snapshot, mt)
+		}
+		c.Cover("rt:MarshalText-result-is-the-callers")
 		// encoding.TextUnmarshaler: "UnmarshalText must copy the text if it wishes to retain the text after
 		// returning" - decoders hand in a buffer they reuse
 		for i := range mt {
